@@ -147,6 +147,8 @@ def load_case(case):
         return gen3d.build_mini(case)
     if kind == "steered-stack":
         return gen3d.build_steered_stack(case)
+    if kind == "crowd":
+        return gen3d.build_crowd(case)
     if kind == "steered-hbond":
         info = {}
         s3 = gen3d.build_steered_hbond(case, info)
